@@ -255,8 +255,18 @@ def _parse_natlists(out):
     return res
 
 
+def _unlimited_stack():
+    # the parser of large list literals recurses per element: let coqc use as much stack as the system allows
+    import resource
+    try:
+        soft, hard = resource.getrlimit(resource.RLIMIT_STACK)
+        resource.setrlimit(resource.RLIMIT_STACK, (hard, hard))
+    except Exception:  # noqa
+        pass
+
+
 def coq_eval_file(path, timeout=600):
-    p = subprocess.run(["timeout", str(timeout), "coqc"] + COQ_ARGS + [path],
+    p = subprocess.run(["timeout", str(timeout), "coqc"] + COQ_ARGS + [path], preexec_fn=_unlimited_stack,
                        stdout=subprocess.PIPE, stderr=subprocess.STDOUT, text=True)
     return p.returncode, p.stdout
 
